@@ -1,4 +1,5 @@
 From Coq Require Import Extraction ExtrOcamlBasic.
-From Mamba Require Import Dawg.Model Dawg.SearchModel.
+From Mamba Require Import Dawg.Model Dawg.Tree Dawg.SearchModel Dawg.SearchSpec.
 Extraction Language OCaml.
-Extraction "model.ml" new_dawg root sget search_c new_searchers new_anagram_searcher_from.
+Extraction "model.ml" new_dawg root sget search_c new_searchers new_anagram_searcher_from
+  check_wf tlang search_fuel.
